@@ -171,4 +171,54 @@ theorem read_err (st : St) (n : Nat) (e : RErr) (st' : St)
         refine ⟨h1, ?_, h3⟩
         simp [St.pending]; omega
 
+/-- `fill` with room for `n` bytes takes at most `n` items from the source
+(every character yields at least one byte; an error is only met with room to
+spare). -/
+theorem fill_consumes (items : List Item) (n : Nat) (r : Except RErr (List Nat)) (st' : St)
+    (h : fill items n = (r, st')) : ∃ k, k ≤ n ∧ st'.items = items.drop k := by
+  induction items generalizing n r st' with
+  | nil => simp [fill] at h; obtain ⟨_, rfl⟩ := h; exact ⟨0, by omega, rfl⟩
+  | cons it rest ih =>
+    cases n with
+    | zero =>
+      cases it <;> (simp [fill] at h; obtain ⟨_, rfl⟩ := h; exact ⟨0, by omega, rfl⟩)
+    | succ n =>
+      cases it with
+      | errUnit b u p => simp [fill] at h; obtain ⟨_, rfl⟩ := h; exact ⟨1, by omega, rfl⟩
+      | errEof => simp [fill] at h; obtain ⟨_, rfl⟩ := h; exact ⟨1, by omega, rfl⟩
+      | ch c =>
+        simp only [fill] at h
+        have hpos := utf8_length_pos c
+        split at h
+        · rename_i hle
+          split at h
+          · rename_i out1 st1 heq
+            simp at h; obtain ⟨_, rfl⟩ := h
+            obtain ⟨k, hk, hs⟩ := ih _ _ _ heq
+            exact ⟨k + 1, by omega, by simpa using hs⟩
+          · rename_i e1 st1 heq
+            simp at h; obtain ⟨_, rfl⟩ := h
+            obtain ⟨k, hk, hs⟩ := ih _ _ _ heq
+            exact ⟨k + 1, by omega, by simpa using hs⟩
+        · simp at h; obtain ⟨_, rfl⟩ := h; exact ⟨1, by omega, rfl⟩
+
+/-- One `read` with an `n`-byte buffer takes at most `n` characters from the
+decoder, whatever it returns. -/
+theorem read_consumes (st : St) (n : Nat) (r : Except RErr (List Nat)) (st' : St)
+    (h : read st n = (r, st')) : ∃ k, k ≤ n ∧ st'.items = st.items.drop k := by
+  unfold read at h
+  split at h
+  · simp at h; obtain ⟨_, rfl⟩ := h; exact ⟨0, by omega, rfl⟩
+  · split at h
+    · exact fill_consumes _ _ _ _ h
+    · split at h
+      · rename_i out1 st1 heq
+        simp at h; obtain ⟨_, rfl⟩ := h
+        obtain ⟨k, hk, hs⟩ := fill_consumes _ _ _ _ heq
+        exact ⟨k, by omega, hs⟩
+      · rename_i e1 st1 heq
+        simp at h; obtain ⟨_, rfl⟩ := h
+        obtain ⟨k, hk, hs⟩ := fill_consumes _ _ _ _ heq
+        exact ⟨k, by omega, hs⟩
+
 end Xt.Encoding
